@@ -60,7 +60,7 @@ func popWorker(args map[string]any, fn func(keyName string, count int) (values [
 	return
 }
 
-func popMultiKeyWorker(ctx *cmdContext, args map[string]any, fn func(keyName string, count int) (values [][]byte, err *respErrorString)) (output respValue) {
+func popMultiKeyWorker(ctx *cmdContext, args map[string]any, left bool) (output respValue) {
 	timeout := args["timeout"].(float64)
 	keyNamesArg := args["key"].([]any)
 
@@ -73,16 +73,13 @@ func popMultiKeyWorker(ctx *cmdContext, args map[string]any, fn func(keyName str
 	output = blockOnListChangeMultiKey(
 		ctx, keyNames, timeoutNs,
 		func() (output respValue) {
-			for _, keyName := range keyNames {
-				values, fnErr := fn(keyName, 1)
-				if fnErr != nil {
-					output.data = *fnErr
-					return
-				} else if len(values) == 1 {
-					strList := []string{keyName, string(values[0])}
-					output = nativeValueToResp(strList)
-					return
-				}
+			// all keys are examined in one lock section: the attempt sees one instant of the database
+			keyName, value, fnErr := ctx.dsc.popFirstOf(keyNames, left)
+			if fnErr != nil {
+				output.data = *fnErr
+			} else if value != nil {
+				strList := []string{keyName, string(value)}
+				output = nativeValueToResp(strList)
 			}
 			return
 		})
@@ -423,12 +420,12 @@ func fnBLMPop(ctx *cmdContext, args map[string]any) (output respValue, err error
 }
 
 func fnBLPop(ctx *cmdContext, args map[string]any) (output respValue, err error) {
-	output = popMultiKeyWorker(ctx, args, ctx.dsc.lpop)
+	output = popMultiKeyWorker(ctx, args, true)
 	return
 }
 
 func fnBRPop(ctx *cmdContext, args map[string]any) (output respValue, err error) {
-	output = popMultiKeyWorker(ctx, args, ctx.dsc.rpop)
+	output = popMultiKeyWorker(ctx, args, false)
 	return
 }
 
